@@ -109,8 +109,21 @@ def absUpper (z : Cx Rat) : Rat := Proto.sqrtUpper (Cx.normSq z)
 def scaleAt (coeffs : List (Cx Rat)) (z : Cx Rat) : Rat :=
   coeffs.foldl (fun acc a => acc * absUpper z + absUpper a) 0
 
+/-- coefficients of the derivative (highest degree first) -/
+def derivCoeffs (coeffs : List (Cx Rat)) : List (Cx Rat) :=
+  let n := coeffs.length - 1
+  (coeffs.take n).zipIdx.map (fun (a, i) => Cx.smul (((n - i : Nat) : Int) : Rat) a)
+
+/-- upper bound of `|z|·|p'(z)|`; `S/(|z||p'(z)|)` is the relative condition number of the root `z` -/
+def condDen (coeffs : List (Cx Rat)) (z : Cx Rat) : Rat :=
+  absUpper z * Proto.sqrtUpper (Cx.normSq (hornerCx (derivCoeffs coeffs) z))
+
+/-- acceptance of one returned root: `|p(z)| ≤ tol·S(z)·(1 + κ(z))` with `κ = S/(|z||p'(z)|)`, written without
+division as `|p(z)|·D ≤ tol·S·(D + S)` and squared (all quantities non-negative) -/
 def rootAccept (tol : Rat) (coeffs : List (Cx Rat)) (z : Cx Rat) : Bool :=
-  Cx.normSq (hornerCx coeffs z) ≤ (tol * scaleAt coeffs z) * (tol * scaleAt coeffs z)
+  let S := scaleAt coeffs z
+  let D := condDen coeffs z
+  Cx.normSq (hornerCx coeffs z) * (D * D) ≤ (tol * S * (D + S)) * (tol * S * (D + S))
 
 def polyAccept (tol : Rat) (coeffs roots : List (Cx Rat)) : Bool :=
   (roots.length + 1 == coeffs.length) && roots.all (rootAccept tol coeffs)
